@@ -63,6 +63,12 @@ pub fn classify_err(msg: &str) -> ErrClass {
     }
 }
 
+/// message of an arithmetic-overflow panic (only exists in builds with overflow checks on, i.e. the
+/// simcheck flavour; a release build would have carried on with the wrapped value)
+pub fn is_overflow_panic(msg: &str) -> bool {
+    msg.contains("panic") && msg.contains("attempt to") && msg.contains("with overflow")
+}
+
 pub fn short(msg: &str) -> String {
     let m = msg.lines().next().unwrap_or("");
     if m.len() > 160 {
@@ -178,6 +184,9 @@ pub struct Ctx {
     pub poisoned: std::sync::Mutex<Vec<usize>>,
     pub lexer_err_groups: std::sync::Mutex<Vec<usize>>,
     pub next_group: std::sync::atomic::AtomicUsize,
+    /// per lexer-sharing group: a shallow clone of the root parser, used only to read the shared
+    /// lexer's statistics (budget oracle)
+    pub observers: std::sync::Mutex<HashMap<usize, llguidance::earley::Parser>>,
 }
 
 impl Ctx {
@@ -211,6 +220,7 @@ impl Ctx {
             poisoned: Default::default(),
             lexer_err_groups: Default::default(),
             next_group: std::sync::atomic::AtomicUsize::new(1),
+            observers: Default::default(),
         })
     }
     pub fn n_vocab(&self) -> usize {
@@ -225,6 +235,16 @@ impl Ctx {
     }
     pub fn group_poisoned(&self, g: usize) -> bool {
         self.poisoned.lock().unwrap().contains(&g)
+    }
+    /// (total fuel spent, error flag) of the lexer shared by group `g`; the read itself is not a
+    /// scheduling decision (but yields if the lock is busy)
+    pub fn observe_lexer(&self, g: usize) -> Option<(u64, bool, usize)> {
+        let obs = self.observers.lock().unwrap().get(&g).cloned()?;
+        sched::NO_YIELD.with(|n| n.set(true));
+        let r = std::panic::catch_unwind(std::panic::AssertUnwindSafe(|| obs.lexer_stats()));
+        sched::NO_YIELD.with(|n| n.set(false));
+        let st = r.ok()?;
+        Some((st.total_fuel_spent as u64, st.error, st.num_states))
     }
     pub fn group_lexer_err(&self, g: usize) -> bool {
         self.lexer_err_groups.lock().unwrap().contains(&g)
@@ -271,6 +291,11 @@ impl<'a> Exec<'a> {
     pub fn ev(&mut self, s: String) {
         self.log_hash = fnv_bytes(self.log_hash.rotate_left(5), s.as_bytes());
         if self.keep_log {
+            if std::env::var_os("LLG_SIM_LIVE").is_some() {
+                // development aid: events in the order they happen (the per-task logs are printed
+                // task by task); never set by the checks
+                eprintln!("live t{} #{} {}", self.task, self.step, s);
+            }
             self.log.push(format!("t{} #{} {}", self.task, self.step, s));
         }
     }
@@ -553,6 +578,42 @@ impl<'a> Exec<'a> {
                     self.ctx.lexer_err_groups.lock().unwrap().push(group);
                     self.stats.probe("lexer_error_entered");
                 }
+                // The Earley item budget is per engine and per step (unlike lexer fuel, which lives in
+                // the lexer shared by shallow clones). A private engine replaying the same tokens does at
+                // least as much work in the same step (it has no rows to reuse and nothing forced
+                // earlier), so if it computes the mask within the budget, this engine's "Too many items"
+                // was not earned by its own step.
+                if msg.contains("Too many items")
+                    && (what == "mask" || what == "observe")
+                    && !poisoned
+                    && !lexer_err
+                    && !self.fuel_fired
+                    && self.ctx.sc.property == "C14"
+                {
+                    let (hist, alt, is_rust) = {
+                        let s = self.slots.get(&h).unwrap();
+                        (s.hist.clone(), s.alt, matches!(s.h, H::M(MH::R(_))))
+                    };
+                    if is_rust {
+                        let nv = self.ctx.n_vocab();
+                        let mut f = MH::R(self.fresh_matcher(alt));
+                        let fed = hist.is_empty() || f.consume_tokens(&hist).is_ok();
+                        if fed && !f.is_stopped() {
+                            self.stats.probe("item_limit_stop_replayed_privately");
+                            if f.compute_mask(nv).is_ok() {
+                                return Err(self.viol(
+                                    "clone_independent",
+                                    "item_limit_not_earned",
+                                    format!(
+                                        "{what} on h{h} failed with {} but a private engine with the same limits and history {:?} computes the mask",
+                                        short(msg),
+                                        &hist[..hist.len().min(12)]
+                                    ),
+                                ));
+                            }
+                        }
+                    }
+                }
             }
             ErrClass::NoExt => {
                 if productive && legal {
@@ -728,6 +789,7 @@ impl<'a> Exec<'a> {
             Op::ChkText { h } => self.chk_text(*h),
             Op::ParMask { hs, words, is_async } => self.op_par_mask(hs, words, *is_async),
             Op::CMaskInto { h, words } => self.op_cmask_into(*h, *words),
+            Op::CFfInto { h, len } => self.op_cff_into(*h, *len),
             Op::StopNew {
                 h,
                 stop_tokens,
@@ -759,7 +821,13 @@ impl<'a> Exec<'a> {
                     None => &w.factory,
                     Some(i) => &self.ctx.alt_factories[i],
                 };
-                H::M(MH::R(Matcher::new(w.new_parser_with(fac))))
+                let p = w.new_parser_with(fac);
+                if self.ctx.sc.budget_oracle {
+                    if let Ok(tp) = &p {
+                        self.ctx.observers.lock().unwrap().insert(group, tp.parser.clone());
+                    }
+                }
+                H::M(MH::R(Matcher::new(p)))
             }
             HKind::CMatcher => H::M(MH::C(CMatcher::new(w, self.ctx.ctok.as_ref().unwrap()))),
             HKind::Constraint { ff } => {
@@ -803,6 +871,15 @@ impl<'a> Exec<'a> {
                 // once a constraint has been built)
                 if cls == ErrClass::Panic {
                     self.stats.probe("construction_error_was_caught_panic");
+                    if is_overflow_panic(&e) {
+                        // ... but not an arithmetic overflow: without overflow checks (as users build
+                        // it) the wrapped value is used and a result is returned
+                        return Err(self.viol(
+                            "no_arithmetic_overflow",
+                            "overflow:build",
+                            format!("construction of h{h}: internal arithmetic overflow: {}", short(&e)),
+                        ));
+                    }
                 }
                 s.failed = Some(e);
                 self.stats.fault("construction_limit");
@@ -948,6 +1025,7 @@ impl<'a> Exec<'a> {
         // outside the protocol families a plain mask request on a finished engine is not issued
         // (it is an error by contract and makes a Matcher permanently failed)
         let or_eos = or_eos || (stopped && !failed && self.ctx.sc.auto_restart);
+        let budget = self.budget_window_open(h);
         let r = self.with_fuel_fault(fuel_at, |me| {
             let s = me.slots.get_mut(&h).unwrap();
             match &mut s.h {
@@ -962,6 +1040,9 @@ impl<'a> Exec<'a> {
             }
         });
         self.stats.masks += 1;
+        if let Some(b) = budget {
+            self.budget_window_close(h, b, r.as_ref().err().map(|e| e.to_string()))?;
+        }
         match r {
             Ok(m) => {
                 if failed {
@@ -1020,6 +1101,71 @@ impl<'a> Exec<'a> {
                 self.on_matcher_err(h, "mask", &e.to_string(), legal)
             }
         }
+    }
+
+    /// Step-budget accounting (C14, "per-call fuel ... set on the shared automaton"): every mask
+    /// computation gets the full `step_lexer_fuel`, whatever the clones sharing the lexer did before.
+    /// Black box: the shared lexer's public fuel counter is read before and after the call; if the
+    /// call ran alone (no context switch in the window), found the lexer healthy and left it out of
+    /// fuel, then at least `step_lexer_fuel` must have been spent inside the window. Only claimed for
+    /// non-canonical tokenizers (there compute_mask does no lexer work before it resets the budget)
+    /// and when the state limit (the only other way into the lexer's error state) was not reached.
+    fn budget_window_open(&mut self, h: SlotId) -> Option<(usize, u64, u64)> {
+        if !self.ctx.sc.budget_oracle
+            || self.ctx.sc.world.canonical
+            || crate::run::REAL_THREADS.load(std::sync::atomic::Ordering::Relaxed)
+        {
+            return None;
+        }
+        let s = self.slots.get_mut(&h)?;
+        if !matches!(s.h, H::M(MH::R(_))) || s.failed.is_some() {
+            return None;
+        }
+        // a cached mask is returned without touching the budget, and whatever the call does to the
+        // lexer afterwards runs on what an earlier call left over: make this call compute
+        if let H::M(m) = &mut s.h {
+            m.invalidate_bias_cache();
+        }
+        let g = s.lexer_group;
+        let sw0 = sched::switches_now();
+        let (spent0, err0, _) = self.ctx.observe_lexer(g)?;
+        if err0 {
+            return None;
+        }
+        Some((g, sw0, spent0))
+    }
+
+    fn budget_window_close(&mut self, h: SlotId, w: (usize, u64, u64), err: Option<String>) -> VResult<()> {
+        let (g, sw0, spent0) = w;
+        let (spent1, err1, states1) = match self.ctx.observe_lexer(g) {
+            Some(x) => x,
+            None => return Ok(()),
+        };
+        let sw1 = sched::switches_now();
+        if sw1 != sw0 {
+            self.stats.probe("budget_window_interleaved");
+            return Ok(());
+        }
+        self.stats.probe("budget_window_clean");
+        // the lexer has two ways into its error state: state limit reached, or fuel at zero
+        let by_states = states1 >= self.ctx.sc.world.limits.max_lexer_states;
+        if !err1 || by_states || self.fuel_fired {
+            return Ok(());
+        }
+        let f = self.ctx.sc.world.limits.step_lexer_fuel;
+        let spent = spent1.saturating_sub(spent0);
+        self.stats.probe("budget_exhausted_in_clean_window");
+        if spent < f {
+            return Err(self.viol(
+                "step_budget",
+                "mask_budget_short",
+                format!(
+                    "h{h}: compute_mask ran alone on a healthy shared lexer and left it out of fuel after spending {spent} < step_lexer_fuel {f} (counter {spent0} -> {spent1}; call returned {})",
+                    err.as_deref().map(short).unwrap_or_else(|| "Ok".into())
+                ),
+            ));
+        }
+        Ok(())
     }
 
     pub fn check_mask_range(&mut self, h: SlotId, m: &[u32]) -> VResult<()> {
@@ -1134,7 +1280,7 @@ impl<'a> Exec<'a> {
     }
 
     /// Resolve a list of picks into concrete tokens by walking a scratch deep clone.
-    fn resolve_sequence(&mut self, h: SlotId, picks: &[Pick]) -> VResult<Vec<TokenId>> {
+    fn resolve_sequence(&mut self, h: SlotId, picks: &[Pick], past_stop: bool) -> VResult<Vec<TokenId>> {
         if picks.len() == 1 {
             let mask = if matches!(picks[0], Pick::Tok(_) | Pick::Eos | Pick::EosAlt(_) | Pick::OutOfRange(_)) {
                 None
@@ -1155,12 +1301,22 @@ impl<'a> Exec<'a> {
             },
             None => return Ok(out),
         };
+        let mut last_mask: Option<Vec<u32>> = None;
         for p in picks {
             let mask = if scratch.is_stopped() || scratch.is_error() {
-                None
+                // try_consume_tokens batches keep going past the stop (the sampler produced the
+                // whole batch from earlier masks): the call has to stop counting there
+                if past_stop {
+                    last_mask.clone()
+                } else {
+                    None
+                }
             } else {
                 scratch.compute_mask(nv).ok()
             };
+            if mask.is_some() {
+                last_mask = mask.clone();
+            }
             match self.resolve_pick(mask.as_ref(), p) {
                 Some(t) => {
                     out.push(t);
@@ -1202,7 +1358,7 @@ impl<'a> Exec<'a> {
                 }
             }
         }
-        let toks = self.resolve_sequence(h, picks)?;
+        let toks = self.resolve_sequence(h, picks, try_consume)?;
         if toks.is_empty() {
             self.ev(format!("commit h{h} nothing-to-pick"));
             return Ok(());
@@ -1243,6 +1399,44 @@ impl<'a> Exec<'a> {
         if stopped && !failed {
             self.stats.fault("call_after_stop");
         }
+        // try_consume_tokens = token by token: stop counting at the first token that is not
+        // acceptable, and at a stop (the stop is latched, nothing after it is consumed)
+        let reference = if try_consume && !failed && !stopped && self.fault_free() && fuel_at.is_none() {
+            let s = self.slots.get_mut(&h).unwrap();
+            match &mut s.h {
+                H::M(m) => {
+                    let mut c = m.clone_handle(true);
+                    let mut n = 0usize;
+                    let mut clean = true;
+                    for t in toks {
+                        if c.is_stopped() || c.is_error() {
+                            break;
+                        }
+                        match c.validate_tokens(&[*t]) {
+                            Ok(1) => {}
+                            Ok(_) => break,
+                            Err(_) => {
+                                clean = false;
+                                break;
+                            }
+                        }
+                        if c.consume_tokens(&[*t]).is_err() {
+                            clean = false;
+                            break;
+                        }
+                        n += 1;
+                    }
+                    if clean && !c.is_error() {
+                        Some((n, c.is_stopped()))
+                    } else {
+                        None
+                    }
+                }
+                _ => None,
+            }
+        } else {
+            None
+        };
         let r: Result<usize> = self.with_fuel_fault(fuel_at, |me| {
             let s = me.slots.get_mut(&h).unwrap();
             match &mut s.h {
@@ -1273,12 +1467,42 @@ impl<'a> Exec<'a> {
                         format!("h{h} was stopped but accepted {n} more token(s) {:?}", &toks[..n]),
                     ));
                 }
+                if let Some(max) = self.ctx.sc.world.max_tokens {
+                    let used = self.slots[&h].hist.len() + n;
+                    if used > max && matches!(self.slots[&h].h, H::M(MH::R(_))) {
+                        return Err(self.viol(
+                            "token_budget",
+                            "budget_exceeded",
+                            format!("h{h} holds {used} tokens with max_tokens={max}"),
+                        ));
+                    }
+                }
                 if toks[..n].iter().any(|t| *t >= nv) {
                     return Err(self.viol(
                         "token_range",
                         "out_of_range_accepted",
                         format!("h{h} accepted an out-of-range token id in {:?}", toks),
                     ));
+                }
+                if let Some((n_ref, stopped_ref)) = reference {
+                    let s = self.slots.get_mut(&h).unwrap();
+                    let now_stopped = match &mut s.h {
+                        H::M(m) => m.is_stopped(),
+                        _ => false,
+                    };
+                    if toks.len() > n_ref {
+                        self.stats.probe("try_consume_batch_cut_short");
+                    }
+                    if n != n_ref || now_stopped != stopped_ref {
+                        return Err(self.viol(
+                            "try_consume_stepwise",
+                            "try_consume_differs_from_stepwise",
+                            format!(
+                                "h{h} try_consume_tokens({:?}) returned {n} stopped={now_stopped}; token by token: {n_ref} stopped={stopped_ref}",
+                                toks
+                            ),
+                        ));
+                    }
                 }
                 if honest && try_consume && n < toks.len() && !stopped {
                     // an honest sequence resolved on a scratch clone must be fully consumable,
@@ -1339,6 +1563,21 @@ impl<'a> Exec<'a> {
                         || l.initial_lexer_fuel != dl.initial_lexer_fuel);
                 if tight && honest && !failed && !stopped {
                     self.stats.probe("commit_failed_under_tight_limits");
+                }
+                if let Some(max) = self.ctx.sc.world.max_tokens {
+                    if e.to_string().contains("max_tokens_total") && !failed {
+                        // the budget is a function of the number of tokens held: every committed token
+                        // costs one, rollback refunds one per token taken back
+                        let held = self.slots[&h].hist.len();
+                        if held + toks.len() <= max {
+                            return Err(self.viol(
+                                "token_budget",
+                                "budget_exhausted_early",
+                                format!("h{h}: max_tokens_total reached while holding {held} tokens (+{} offered), max_tokens={max}", toks.len()),
+                            ));
+                        }
+                        self.stats.probe("token_budget_reached");
+                    }
                 }
                 let legal = honest && !failed && !stopped && !self.fuel_fired && !tight;
                 if legal && self.fault_free() {
